@@ -76,6 +76,12 @@ def _raw_docs():
                 h3 + 'a\n' + '{a:' * n + '1' + '}' * n + '\n', 'ver:"3.0" m:' + '[' * n + '\na\n1\n',
                 h3 + 'a\n' + ('<<' + h3 + 'a\n') * min(n, 70) + '\n', h3 + 'a\n' + '"' + '\\' * n + '\n',
                 h3 + 'a\n' + '(' * n + '\n', h2 + 'a\n' + '[' * n + '\n']
+    # long literals that never end, or end in an escape the grammar does not have: rejected, and promptly
+    for n in (28, 36, 60, 200):
+        body = ('abcdefghij klmnopqrst ' * 12)[:n]
+        for open_, esc in (('"', ''), ('"', '\\q'), ('`', ''), ('`', '\\q'), ('@r "', ''), ('Xs("', ''), ('hex("', '')):
+            out += [h3 + 'a\n' + open_ + body + esc + '\n', h3 + 'a\nN,' + open_ + body + esc]
+        out += ['ver:"' + body + '\na\n1\n', h3 + 'a dis:"' + body + '\n1\n', h3 + 'a\n<<ver:"' + body + '\nb\n1\n>>\n']
     for inner in ('[1]', '{k:1}', 'NA', 'Xs("p")', '<<' + h3 + 'x\n1\n>>', '<<' + h2 + 'x\n1\n>>'):
         # a nested grid whose header says 2.0, with a second ver tag / a 3.0-only kind in its metadata, columns, cells
         out += [h3 + 'a\n<<ver:"2.0" ver:"3.0"\nb\n%s\n>>\n' % inner, h3 + 'a\n<<ver:"2.0" m:%s\nb\n1\n>>\n' % inner,
@@ -112,7 +118,23 @@ class _Timeout(Exception):
 
 
 def _alarm(signum, frame):
+    # (the exception alone is not enough: a catch-all handler inside the code under test may turn it into an
+    # ordinary refusal -- the flag records that the budget ran out, whatever happens to the exception)
+    _W['fired'] = True
     raise _Timeout()
+
+
+def _timed(fn):
+    """runs one outcome function under the time budget; a call during which the budget ran out is a timeout"""
+    def run_(args):
+        _W['fired'] = False
+        cid, out = fn(args)
+        signal.setitimer(signal.ITIMER_REAL, 0)
+        if _W['fired']:
+            return cid, {'out': 'timeout'}
+        return cid, out
+    run_.__name__ = fn.__name__
+    return run_
 
 
 def _init():
@@ -124,7 +146,7 @@ def _init():
     signal.signal(signal.SIGALRM, _alarm)
 
 
-def _outcome(args):
+def _outcome_raw(args):
     cid, text = args[0], args[1]
     single = len(args) > 2 and args[2]
     hs, A, ZPE = _W['hs'], _W['A'], _W['ZPE']
@@ -153,7 +175,15 @@ def _outcome(args):
         return cid, {'out': 'other', 'exc': type(e).__name__ + ': ' + str(e)[:120]}
 
 
+def _outcome(args):
+    return _timed(_outcome_raw)(args)
+
+
 def _scalar_outcome(args):
+    return _timed(_scalar_outcome_raw)(args)
+
+
+def _scalar_outcome_raw(args):
     cid, text, ver = args
     hs = _W['hs']
     s = ''.join(chr(c) for c in text)
